@@ -77,11 +77,19 @@ def trace_certificates(ctx, n):
             os.remove(tr)
         rc, out, err = vlib.run_opensmt(text, timeout=10, env_extra={"OPENSMT_VERIF_TRACE": tr})
         ev, nq = trace_events(tr) if os.path.exists(tr) else ("", 0)
+        contract = []
         if os.path.exists(tr):
+            import C04
+            # answers given through the per-frame unsat flags rest on the reported conflict frame and on the guards
+            contract = ["check %d: conflict frame %d but the final conflict uses frame %d" % c for c in C04.engine_contract_violations(tr)] + C04.frame_guard_violations(tr)
             os.remove(tr)
-        return text, meta, rc, ev, nq, out.count("unsat")
+        return text, meta, rc, ev, nq, out.count("unsat"), contract
     with cf.ThreadPoolExecutor(max_workers=12) as ex:
-        res = [r for r in ex.map(one, range(n)) if r[2] in (0, 1) and r[4] > 0]
+        allres = list(ex.map(one, range(n)))
+        for r in allres:
+            for c in r[6]:
+                ctx.tie_broken("frame-flag-contract", c, dict(script=r[0]))
+        res = [r for r in allres if r[2] in (0, 1) and r[4] > 0]
     if not res:
         return
     rc, out = vlib.sh([exe], input="\n".join(r[3] for r in res) + "\n", timeout=900)
@@ -89,7 +97,7 @@ def trace_certificates(ctx, n):
     if rc != 0 or len(lines) < len(res):
         ctx.tie_broken("trace-replay-run", out[-300:])
         return
-    for (text, meta, rc_, ev, nq, nunsat), l in zip(res, lines):
+    for (text, meta, rc_, ev, nq, nunsat, contract), l in zip(res, lines):
         toks = l.split()
         ctx.case(key=("trace", text), nontrivial=len(toks) > 1, kind="trace-certificate:%s:%s" % (meta["logic"], "accepted" if "FAIL" not in toks else "rejected"),
                  sample=dict(script=text, events=ev[:300], verdicts=l))
